@@ -163,12 +163,15 @@ func VerifC16Key() {
 	zzverif.Assert(zzverif.Or(undecided, same == want), "key-encoding-matches-iff-equal")
 }
 
-// VerifC16Table: a sequence of Upsert/Delete on a MemoryTableSource followed by a Lookup behaves as a
-// last-write-wins map over key tuples (compared by the property's equality), and enrichJoin attaches /
-// drops / NULL-pads accordingly without touching the caller's row.
+// VerifC16Table: a sequence of Upsert/Delete/Lookup operations on a MemoryTableSource whose keys may
+// use different Go number types for the same value behaves as a last-write-wins map over key tuples
+// (compared by the property's equality): every lookup - also one made before a later update - sees
+// exactly the operations that returned before it, and enrichJoin attaches / drops / NULL-pads
+// accordingly without touching the caller's row.
 func VerifC16Table() {
 	nops := zzverif.Param("ops", 2)
-	kind := verifPickS("kind", jkCount)
+	kindA := verifPickS("kind", jkCount)
+	kindB := zzverif.Param("kind2", kindA) // a second key type used by some operations (1 vs 1.0 vs uint(1))
 	slen := zzverif.Param("slen", 1)
 	tbl := NewMemoryTableSource("t", []string{"id"}, nil)
 	type refEntry struct {
@@ -177,75 +180,78 @@ func VerifC16Table() {
 		live bool
 	}
 	var ref []refEntry
-	for i := 0; i < nops; i++ {
-		k := verifKeyVal("k", kind, slen)
-		if kind == jkNil {
-			k = zzverif.NondetInt64("k.i") // table rows always carry a key value
-		}
-		if zzverif.Choose("op", 2) == 0 {
-			row := map[string]any{"id": k, "n": i}
-			tbl.Upsert(row)
-			ref = append(ref, refEntry{k, row, true})
-		} else {
-			tbl.Delete([]any{k})
-			ref = append(ref, refEntry{k, nil, false})
-		}
-	}
-	probe := verifKeyVal("probe", kind, slen)
-	// reference: last operation whose key equals the probe decides
-	var wantRow map[string]any
-	wantHit := false
-	undecided := false
-	for i := len(ref) - 1; i >= 0; i-- {
-		e, u := verifCompEq(ref[i].key, probe)
-		if u {
-			undecided = true
-			break
-		}
-		if e {
-			wantHit = ref[i].live
-			wantRow = ref[i].row
-			break
-		}
-	}
-	if undecided {
-		return
-	}
-	left := zzverif.Choose("left", 2) == 1
-	jt := "INNER"
-	if left {
-		jt = "LEFT"
-	}
 	s := &Stream{tables: newTableStore()}
-	s.config.JoinConfigs = []types.JoinConfig{{Table: "t", Alias: "d", JoinType: jt, OnPairs: []types.JoinOnPair{{StreamField: "dev", TableField: "id"}}}}
 	if err := s.tables.register(tbl); err != nil {
 		panic(err)
 	}
-	data := map[string]any{"dev": probe, "v": 1}
-	working, keep, err := s.enrichJoin(data)
-	zzverif.Assert(err == nil, "join-no-error")
-	zzverif.ObserveB("keep", keep)
-	if wantHit {
-		zzverif.Cover("join-hit")
-		zzverif.Assert(keep, "join-match-kept")
-		if keep {
-			got, ok := working["d"].(map[string]any)
-			zzverif.Assert(ok, "join-attaches-row")
-			if ok {
-				zzverif.Assert(got["n"] == wantRow["n"], "join-attaches-latest-row")
+	pickKind := func() int {
+		if kindB != kindA && zzverif.Choose("usekind2", 2) == 1 {
+			return kindB
+		}
+		return kindA
+	}
+	lookup := func(probe any, left bool, tag string) {
+		var wantRow map[string]any
+		wantHit := false
+		for i := len(ref) - 1; i >= 0; i-- {
+			e, u := verifCompEq(ref[i].key, probe)
+			if u {
+				return // NULL = NULL / NaN = NaN: left open
+			}
+			if e {
+				wantHit = ref[i].live
+				wantRow = ref[i].row
+				break
 			}
 		}
-	} else {
-		zzverif.Cover("join-miss")
-		zzverif.Assert(keep == left, "join-miss-inner-drops-left-keeps")
-		if keep {
-			_, present := working["d"]
-			zzverif.Assert(present, "join-left-miss-has-alias")
-			m, isMap := working["d"].(map[string]any)
-			zzverif.Assert(isMap && len(m) == 0, "join-left-miss-null-columns")
+		jt := "INNER"
+		if left {
+			jt = "LEFT"
+		}
+		s.config.JoinConfigs = []types.JoinConfig{{Table: "t", Alias: "d", JoinType: jt, OnPairs: []types.JoinOnPair{{StreamField: "dev", TableField: "id"}}}}
+		data := map[string]any{"dev": probe, "v": 1}
+		working, keep, err := s.enrichJoin(data)
+		zzverif.Assert(err == nil, "join-no-error")
+		zzverif.ObserveB("keep"+tag, keep)
+		if wantHit {
+			zzverif.Cover("join-hit")
+			zzverif.Assert(keep, "join-match-kept")
+			if keep {
+				got, ok := working["d"].(map[string]any)
+				zzverif.Assert(ok, "join-attaches-row")
+				if ok {
+					zzverif.Assert(got["n"] == wantRow["n"], "join-attaches-latest-row")
+				}
+			}
+		} else {
+			zzverif.Cover("join-miss")
+			zzverif.Assert(keep == left, "join-miss-inner-drops-left-keeps")
+			if keep {
+				_, present := working["d"]
+				zzverif.Assert(present, "join-left-miss-has-alias")
+				m, isMap := working["d"].(map[string]any)
+				zzverif.Assert(isMap && len(m) == 0, "join-left-miss-null-columns")
+			}
+		}
+		_, hasD := data["d"]
+		zzverif.Assert(len(data) == 2 && !hasD, "join-does-not-mutate-input")
+	}
+	for i := 0; i < nops; i++ {
+		k := verifKeyVal("k", pickKind(), slen)
+		if k == nil {
+			k = zzverif.NondetInt64("k.i") // table rows always carry a key value
+		}
+		switch zzverif.Choose("op", 3) {
+		case 0:
+			row := map[string]any{"id": k, "n": i}
+			tbl.Upsert(row)
+			ref = append(ref, refEntry{k, row, true})
+		case 1:
+			tbl.Delete([]any{k})
+			ref = append(ref, refEntry{k, nil, false})
+		case 2:
+			lookup(k, false, "mid") // a row processed between updates
 		}
 	}
-	// the caller's row is untouched (C20 overlaps): same two keys, same values
-	_, hasD := data["d"]
-	zzverif.Assert(len(data) == 2 && !hasD, "join-does-not-mutate-input")
+	lookup(verifKeyVal("probe", pickKind(), slen), zzverif.Choose("left", 2) == 1, "end")
 }
